@@ -89,7 +89,7 @@ fn make_input(seed: u64, case: u64) -> Option<(Vec<u8>, &'static str)> {
         return make_featured(&mut rng).map(|b| (b, "library-written-featured"));
     }
     if case % 2 == 0 {
-        let mut g = Gen::new(Rng::derive(seed, 161, case), GenCfg { invalid_pct: 0, ..Default::default() }, case);
+        let mut g = Gen::new(Rng::derive(seed, 161, case), GenCfg { invalid_pct: 0, big_batch_one_in: 25, ..Default::default() }, case);
         let mut s = Session::create(["Installer", "Patch", "Transform"][(case % 3) as usize]).ok()?;
         let mut scratch = Report::new();
         for _ in 0..(2 + rng.usize(10)) {
